@@ -21,7 +21,8 @@ use serde::{Deserialize, Serialize};
 
 type Svc = ipc::Service;
 
-pub const PREFIXES: [&str; 4] = ["a_", "ab_", "a", "b_"];
+/// "a1": an extension of "a" that consists of a digit (node and port ids are decimal numbers)
+pub const PREFIXES: [&str; 5] = ["a_", "ab_", "a", "b_", "a1"];
 pub const ROOTS: [&str; 3] = ["r1", "r1/sub", "r2"];
 
 #[derive(Clone, Copy, Debug, Serialize, Deserialize, PartialEq, Eq, Hash)]
@@ -342,6 +343,16 @@ impl ISys {
                 PREFIXES[me.cfg.prefix], ROOTS[me.cfg.root], PREFIXES[other.cfg.prefix], ROOTS[other.cfg.root]
             );
             // ---- nodes
+            // One prefix is the other one followed by digits: node ids are decimal numbers, so both
+            // sides can take the other's node entries for their own. For the side with the LONGER
+            // prefix this depends on whether the other side's (random) node id happens to start with
+            // those digits - not a function of the history, so that view is not compared (the
+            // shorter side shows the same defect deterministically).
+            let ext_of = |long: &str, short: &str| long.len() > short.len() && long.starts_with(short) && long[short.len()..].chars().all(|c| c.is_ascii_digit());
+            if ext_of(&me.prefix, &other.prefix) {
+                continue;
+            }
+            let digit_site = if ext_of(&other.prefix, &me.prefix) { " [the other prefix is the own prefix followed by digits]" } else { "" };
             let mut alive: BTreeSet<u128> = BTreeSet::new();
             let mut dead = 0usize;
             let mut odd = 0usize;
@@ -361,7 +372,7 @@ impl ISys {
             ensure!(
                 foreign.is_empty() && odd == 0 && dead <= self.dead_in_domain(side),
                 "foreign-node-visible",
-                "Node::list shows a node of another domain".to_string(),
+                format!("Node::list shows a node of another domain{digit_site}"),
                 "after {after}: {} foreign alive, {dead} dead (own domain has {}), {odd} undefined/inaccessible; {rel}",
                 foreign.len(),
                 self.dead_in_domain(side)
